@@ -109,6 +109,24 @@ CHECKS.update({
    text="Every placement of at most 1-3 fault / repair events (per link: black hole, lost handshake replies, REG_ERR answers, socket send errors via a closed receiver port, socket re-creation errors via the UplinkBinder seam; globally: the receiver forgetting the group) in runs of 14-140 one-second steps (housekeeping pass, a fake receiver answering exactly what it saw on non-faulted links, client traffic or an idle sender, ACKs), for 2-4 links, connection timeouts 1000/5000/15000/60000 ms and both modes. The monitor checks teardown-only-for-cause against the timeout configured in DynamicConfig, the minimum and maximum spacing of reconnect attempts, the 30 s rejoin bound with clean accounting at the connecting step, and that survivors keep carrying the stream. The back-off predicate is swept for every failure count incl. u32::MAX.",
    note="Trusted: glue mirror + fingerprint, the fake receiver (about 60 lines), the temporal monitor. 'Retried forever' is decided up to the horizon plus the pure arithmetic; the 30 s bound assumes local socket re-creation succeeds.",
    design="3/C08"),
+ "C18": dict(
+   engine="prodx+schedx",
+   technique="exhaustive product of a line grammar and all command sequences to a depth through the real dispatch / dispatch_async against a reference model; preemption-bounded exhaustive schedule exploration of real threads on the real DynamicConfig",
+   text="About 31000 lines (every string of length <= 2 over a 44-character JSON alphabet; the product jsonrpc x id x method x params x envelope incl. duplicate keys, array wrapping, trailing garbage, u64 extremes, unrepresentable numbers, deep nesting) from up to seven start configurations (incl. from_cli with out-of-range timeouts), each through the stdin entry point and the socket entry point without and with a subscription context, judged by a reference model that uses the generator's own shape tag; all sequences of depth 4-5 over 14 commands with the configuration compared with a six-field model after every line; and every schedule with at most 2-3 preemptions of 2 setter threads (direct setters and lines through the dispatcher) plus 1-2 snapshot readers, each atomic access of DynamicConfig being a switch point. The sweep runs in a child process.",
+   note="Trusted: serde_json as JSON parser, the reference model (about 80 lines), the baton scheduler. Sequentially consistent schedules only; non-UTF-8 input never reaches dispatch(&str); the entry-point read loops are not explored.",
+   design="3/C18"),
+ "C19": dict(
+   engine="prodx+seqx+world",
+   technique="exhaustive product of file contents through the real reload analyser against an independent line splitter; exhaustive reload-sequence exploration through the real apply_connection_changes in the shell world",
+   text="Every file of up to 4-5 lines over an 11-line alphabet (blank, whitespace, IPv4, padded IPv4, duplicate, IPv6, garbage, out-of-range octet, address:port, non-ASCII digits) x {LF, CRLF} x {final newline or not}, plus a missing and a real file, against an independent splitter and the refusal rules; and all sequences to depth 2-5 over client datagrams, flush ticks, NAKs and reloads (all 31 non-empty subsets of a five-address loopback universe plus reordered and duplicated lists; applied directly and through the housekeeping arm) from a streaming 3-link world and one with a stall-latched link. After every apply: survivors keep conn_id, the same socket object and (direct apply) a bit-identical full state; exactly the unlisted links are gone with their I/O entry and attribution records; new addresses appear once, fresh; the previous routing choice is forgotten iff a link was removed.",
+   note="Trusted: the independent splitter (std IpAddr parser), glue mirror + fingerprint, the projection. IPv4 loopback universe only for the world part.",
+   design="3/C19"),
+ "C20": dict(
+   engine="schedx",
+   technique="preemption-bounded exhaustive schedule exploration of real async tasks on the real SubscriptionHub under a hand-rolled single-threaded executor",
+   text="Seven harnesses (subscribe / receive / unsubscribe / close / publish by 2-4 tasks, two topics, subscribers that never read or never run again) x channel capacities 1 and 2, every schedule with at most 2 (quick) / 3 (thorough) preemptions, iterated 0..bound, every execution run to completion. Switch points: every genuine Pending of tokio's Mutex / mpsc plus cfg-guarded yield points before and right after every lock acquisition, after the id counter, between entries of the publish loop while the lock is held, and after the loop. Judged on the recorded invoke/return/receive history: no deadlock even with frozen subscribers, topic / id / order / at-most-once / nothing-after-unsubscribe / pruning. A harness with a single observable outcome is rejected as vacuous.",
+   note="Trusted: the executor and decision engine (about 150 lines), the history oracle. One executor thread with explicit yield points stands in for the multi-threaded runtime (sequentially consistent interleavings of the marked accesses); tokio's internals are trusted.",
+   design="3/C20"),
 })
 
 NOT_YET = {
